@@ -637,3 +637,76 @@ pub fn gen_case(rng: &mut Rng) -> Case {
     }
     Case { font: AbsFont { num_glyphs: base.num_glyphs, cmap: base.cmap.clone(), ift, iftx }, uni, base, malformed }
 }
+
+// ------------------------------------------------------------------ duelling tables
+
+/// Templates whose expansion depends on the id, so that equal ids <=> equal URIs.
+const ID_TEMPLATES: [&[u8]; 6] = [b"//h/{id}", b"{id}", b"a/{d1}/{d2}/{d3}/{d4}/{id}", b"x{id64}y", b"%41{id}.ift", b"p:{id}?q={d2}"];
+
+fn gen_duel_table(rng: &mut Rng, u: &Universe, n: usize, template: &[u8], shift: i32) -> Table2 {
+    let mut running = 0i64;
+    let mut entries: Vec<Entry2> = (0..n).map(|i| gen_entry2(rng, u, i, false, &mut running)).collect();
+    for (i, e) in entries.iter_mut().enumerate() {
+        // ids 1, 2, 3, ... (shifted / with small gaps): entry i of "IFT " and some entry of "IFTX" share their id
+        e.id = if i == 0 && shift != 0 {
+            IdSpec::Delta(shift)
+        } else if rng.chance(1, 6) {
+            IdSpec::Delta(rng.range(0, 1) as i32)
+        } else {
+            IdSpec::None
+        };
+        // mostly wildcard features / design space and no children: many entries intersect, with
+        // different code point intersection sizes
+        if rng.chance(4, 5) {
+            e.fds = None;
+        }
+        if rng.chance(4, 5) {
+            e.children = None;
+        }
+        e.ignored = rng.chance(1, 12);
+        e.patch_format = match rng.usize(40) {
+            0 => Some(1),
+            1..=4 => Some(3),
+            5..=14 => Some(2),
+            _ => None,
+        };
+        for _ in 0..3 {
+            if matches!(e.cps, CpSpec::Present { .. }) {
+                break;
+            }
+            e.cps = gen_cps(rng, u);
+        }
+    }
+    Table2 {
+        compat: gen_compat(rng),
+        default_format: 2,
+        template: template.to_vec(),
+        string_ids: false,
+        entries,
+        field_flags: 0,
+        truncate: 0,
+        string_pad: 0,
+        string_cut: 0,
+    }
+}
+
+/// Both mapping tables are format 2, share the URI template and (mostly) the ids, and offer mostly
+/// partially invalidating patches: "IFT " and "IFTX" candidates resolve to the SAME URI with
+/// different intersection sizes, so the "URI already selected for IFT" exclusion and the fallback
+/// to IFTX's next best candidate are exercised.
+pub fn gen_duel_case(rng: &mut Rng) -> Case {
+    let uni = universe(rng);
+    let base = gen_font_base(rng, &uni);
+    let template = *rng.pick(&ID_TEMPLATES);
+    let na = 1 + rng.usize(5);
+    let nb = 2 + rng.usize(6);
+    let a = gen_duel_table(rng, &uni, na, template, 0);
+    let shift = if rng.chance(1, 3) { rng.range(1, 2) as i32 } else { 0 };
+    let b = gen_duel_table(rng, &uni, nb, template, shift);
+    Case {
+        font: AbsFont { num_glyphs: base.num_glyphs, cmap: base.cmap.clone(), ift: Some(AbsTable::F2(a)), iftx: Some(AbsTable::F2(b)) },
+        uni,
+        base,
+        malformed: None,
+    }
+}
